@@ -17,7 +17,8 @@ What is mirrored (file:function of /repo/src):
 * core.rs `Obj::try_pop`, `try_remove_index`, `mem::take` (consume) → `popLeaf`, `removeLeaf`, `takeLeaf`
 * lib.rs `Append::run2`                       → `appendOp` (`make_mut` + `push`)
 * eval.rs `Expr::Assign`, `Expr::OpAssign` hot path with `drop_lhs`, `Expr::Pop`, `Expr::Remove`,
-  `Expr::Consume`, `Expr::Swap`               → `step`
+  `Expr::Consume`, `Expr::Swap`, `Expr::Update` (`x{i = v}`: `set_index` on a clone of the handle), and
+  a builtin call on a variable's value (`x append v`) → `step`
 
 A `&mut Obj` slot is modelled by moving the value out of the slot (slot := null), transforming the
 owned value, and moving the result back; no evaluation happens while a slot is borrowed in the Rust, so
@@ -225,6 +226,12 @@ inductive Stmt where
   | consume (y x : Nat) (path : List Int)
   /-- `swap x[px], y[py]` -/
   | swap (x : Nat) (px : List Int) (y : Nat) (py : List Int)
+  /-- `y = x{i = a}`: `Expr::Update` evaluates `x` (a clone of the handle), runs `set_index` on that
+  temporary, and the result is assigned to `y`; `x` itself must not change -/
+  | update (y x : Nat) (i : Int) (a : Atom)
+  /-- `y = x append a`: a "mutating-style" builtin called on the variable's value (by-value argument =
+  clone of the handle, `Append::run2` = `make_mut` + push) -/
+  | callAppend (y x : Nat) (a : Atom)
   deriving Repr, Inhabited
 
 /-- interpreter state: the heap and one cell per variable -/
@@ -343,8 +350,26 @@ def step (s : State) : Stmt → State × Bool
             (w2.1, w2.2.2)
           else (⟨drop w1.1.h av, w1.1.cells⟩, false)
     else (s, false)
+  | .update y x i a =>
+    if declared s x ∧ declared s y then
+      let rd := readVar s x
+      let e := evalAtom s rd.1 a
+      let w := setIndex e.1 rd.2 [i] e.2
+      if w.ok then (writeCell w.h s.cells y w.v, true) else (⟨drop w.h w.v, s.cells⟩, false)
+    else (s, false)
+  | .callAppend y x a =>
+    if declared s x ∧ declared s y then
+      let rd := readVar s x
+      let e := evalAtom s rd.1 a
+      let ap := appendOp e.1 rd.2 e.2
+      match ap.2 with
+      | some c => (writeCell ap.1 s.cells y c, true)
+      | none => (⟨ap.1, s.cells⟩, false)
+    else (s, false)
 
 def run (s : State) : List Stmt → State
+
+
   | [] => s
   | st :: rest => run (step s st).1 rest
 
